@@ -1085,6 +1085,8 @@ class DiHypergraph:
         self.add_edges_from = frozen
         self.remove_edge = frozen
         self.remove_edges_from = frozen
+        self.add_node_to_edge = frozen
+        self.remove_node_from_edge = frozen
         self.clear = frozen
         self.frozen = True
 
